@@ -51,6 +51,7 @@ type c13Script struct {
 	defaults bool // the Client's interval fields are left at zero: the documented defaults (5 s / 1 s) apply
 	dress    int  // shape of the peer's answers (c13DWA)
 	noise    int  // unhandled requests the peer sends right after the handshake (nobody reads ErrorReports)
+	peerDWRs bool // the peer runs a watchdog of its own throughout: a DWR (other identifiers every time) every W/3 until the connection closes
 }
 
 func (s c13Script) String() string {
@@ -196,6 +197,19 @@ func runC13Client(c *ev.Case, ctx *lib.Ctx, sc c13Script) {
 	}
 	// the peer runs a watchdog of its own: its DWR must be answered by the client's state machine
 	mc.Feed(peer.DWR(0x7e570001, 0x7e570002))
+	if sc.peerDWRs {
+		// ... and keeps doing so: DWRs received from the peer are not answers to the client's own
+		go func() {
+			for i := uint32(0); i < 400; i++ {
+				select {
+				case <-mc.Closed():
+					return
+				case <-time.After(sc.W / 3):
+				}
+				mc.Feed(peer.DWR(0x7e580000+i, i))
+			}
+		}()
+	}
 	// horizon
 	roundMax := time.Duration(sc.N+1) * sc.R
 	H := 30 * (sc.W + roundMax)
@@ -660,6 +674,13 @@ func TestC13(t *testing.T) {
 	rec.Suite("client-scripts", len(scripts)*reps, func(c *ev.Case) {
 		sc := scripts[c.I%len(scripts)]
 		sc.dress = (c.I/len(scripts) + c.I) % nC13Dress
+		if (c.I/7)%3 == 1 && sc.schedule != sLateReturn {
+			// (not with a transport whose Write returns late: the answer to the peer's DWR would wait
+			// for the connection's write lock while virtual time stands still - a mutex wait is not
+			// a durable block for the bubble)
+			sc.peerDWRs = true
+			c.Class("peer-sends-dwrs-throughout/%s", aNames[sc.pattern])
+		}
 		if (c.I/5)%4 == 3 {
 			sc.noise = []int{3, 70, 200}[(c.I/20)%3]
 			c.Class("unhandled-requests-unread-reports=%d", sc.noise)
